@@ -59,6 +59,9 @@ REV=[
  ("entities whose name ends in a capital letter were rejected",["C07"],"R-PROV/entityname"),
  ("boolean fields could not be supplied as URL query parameters",["C03"],"R-FLOW/kinds"),
  ("id62.Parse accepted negative numbers",["C20"],"R-FLOW/sign"),
+ ("format edits left a whitespace-only separator line in place",["C19"],"R-CONST/gap"),
+ ("a method without a response block crashed the OpenAPI export",["C16"],"R-PANIC/P4o"),
+ ("a failed build left unlinked refs in the schema cache",["C18"],"R-ERR/rollback"),
 ]
 n=0
 for sub,props,expect in REV:
